@@ -67,15 +67,19 @@ def run(ctx):
     ctx.check('R2', 'remote_reduce returns a 5-tuple (callable, args, state, listitems, dictitems)', ok, 'RemotePickler36.remote_reduce', 'reduce-arity',
               'the reduce value is not the 5-tuple of object.__reduce_ex__', where=loc(rr, ret_stmts[0]) if ret_stmts else loc(rr, rr.node))
     SV = LV = DV = None
+    OBJP = rr.params[1] if len(rr.params) > 1 else 'obj'
     for st in walk_local(rr.node):
         if isinstance(st, ast.Assign) and isinstance(st.targets[0], ast.Name):
             v = st.value
             if isinstance(v, ast.Call) and last_attr(v) == '__getstate__':
                 SV = st.targets[0].id
-            if isinstance(v, ast.IfExp) and 'isinstance(obj, list)' in norm(v.test):
-                LV = st.targets[0].id
-            if isinstance(v, ast.IfExp) and 'isinstance(obj, dict)' in norm(v.test):
-                DV = st.targets[0].id
+            # the items variables by what they hold (an iterator over the object itself / over its items()), however the choice is written
+            for arm in _arms(v):
+                k = _items_kind(arm, OBJP)
+                if k == 'list':
+                    LV = st.targets[0].id
+                if k == 'dict':
+                    DV = st.targets[0].id
     check_provenance(ctx, rr, SV, LV, DV)
     # locals of remote_reduce by role (not by name)
     OBJ = rr.params[1] if len(rr.params) > 1 else 'obj'
@@ -184,6 +188,35 @@ REWRAP = ('OrderedDict', 'collections.OrderedDict', 'dict')
 MUTATORS = ('pop', 'popitem', 'clear', 'update', 'setdefault', 'move_to_end', '__setitem__', '__delitem__', 'append', 'extend', 'remove', 'insert', 'sort', 'reverse')
 
 
+def _arms(v):
+    """the alternatives of a value written as (nested) conditional expressions"""
+    if isinstance(v, ast.IfExp):
+        return _arms(v.body) + _arms(v.orelse)
+    return [v]
+
+
+def _arm_facts(v, want, facts=frozenset()):
+    """canon() facts under which the alternative `want` of the conditional expression `v` is the one evaluated"""
+    from ..astutil import conjuncts
+    if v is want:
+        return set(facts)
+    if isinstance(v, ast.IfExp):
+        for arm, truth in ((v.body, True), (v.orelse, False)):
+            r = _arm_facts(arm, want, set(facts) | set(conjuncts(v.test, truth)))
+            if r is not None:
+                return r
+    return None
+
+
+def _items_kind(arm, obj):
+    t = norm(arm)
+    if t in (f'{obj}.__iter__()', f'iter({obj})'):
+        return 'list'
+    if t in (f'{obj}.items().__iter__()', f'iter({obj}.items())'):
+        return 'dict'
+    return None
+
+
 def check_provenance(ctx, rr, SV, LV, DV):
     """R2 who-may-write frame on the three payload variables of the reduce value: what is sent is what was taken.
     The state variable is defined by the __getstate__ call and may only be re-wrapped by a content-preserving mapping
@@ -209,7 +242,17 @@ def check_provenance(ctx, rr, SV, LV, DV):
                         ok = (isinstance(v, ast.Call) and last_attr(v) == '__getstate__') or \
                              (isinstance(v, ast.Call) and dotted(v.func) in REWRAP and len(v.args) == 1 and not v.keywords and is_name(v.args[0], var))
                     else:
-                        ok = isinstance(v, ast.IfExp)
+                        # every alternative is None or the iterator over the object (its items), the latter only where the object is known to
+                        # be a list (a dict): the choice may be a conditional expression or an if statement
+                        obj = rr.params[1] if len(rr.params) > 1 else 'obj'
+                        typ = 'list' if role == 'listitems' else 'dict'
+                        ok = True
+                        for arm in _arms(v):
+                            if isinstance(arm, ast.Constant) and arm.value is None:
+                                continue
+                            facts = (_arm_facts(v, arm) or set()) | facts_at(pm, st, rr.node)
+                            if _items_kind(arm, obj) != typ or (f'isinstance({obj}, {typ})', True) not in facts:
+                                ok = False
                 ctx.check('R2', f'the {role} of the reduce value is only defined by what was taken from the object', ok, 'RemotePickler36.remote_reduce',
                           f'{role}-replaced:{norm(st)[:60]}', f'`{short(st)}` replaces the {role} taken from the object: what is restored on the other side is not what __getstate__(remote=...) returned',
                           where=loc(rr, st))
